@@ -90,11 +90,78 @@ fn multi_definition_documents() -> Vec<(&'static str, &'static str, String)> {
     out
 }
 
+
+/// Commands whose only validation failure sits inside the `seal` or `open` block (value
+/// analyzer: a name set twice on one path), alone and among valid / invalid other definitions,
+/// with the command sorting first / in the middle / last in label order.
+fn seal_open_documents() -> Vec<(&'static str, &'static str, String)> {
+    const ENV: &str = "struct Envelope { payload bytes }\n";
+    const MCMD: &str = "command mcmd {\n fields { a int }\n seal { return Envelope { payload: payload } }\n open { return Unit }\n policy {\n finish {}\n }\n}\n";
+    let valid_fn = |n: &str| format!("function {n}(k int) int {{\n if k > 0 {{\n return 1\n }}\n return 0\n}}\n");
+    let valid_act = |n: &str, cmd: &str| format!("action {n}(k int) {{\n if k > 0 {{\n publish {cmd} {{ a: k }}\n }} else {{\n publish {cmd} {{ a: 0 }}\n }}\n}}\n");
+    let bad_fn = |n: &str| format!("function {n}() int {{\n if false {{\n return 0\n }}\n}}\n");
+    let twice = "if this.a > 0 {\n let n = 1\n }\n let n = 2\n";
+    let cmd = |name: &str, block: &str| {
+        let (seal_pre, open_pre) = match block {
+            "seal" => (twice, ""),
+            "open" => ("", twice),
+            "both" => (twice, twice),
+            _ => ("", ""),
+        };
+        format!(
+            "command {name} {{\n fields {{ a int }}\n seal {{\n {seal_pre} return Envelope {{ payload: payload }}\n }}\n open {{\n {open_pre} return Unit\n }}\n policy {{\n finish {{}}\n }}\n}}\n"
+        )
+    };
+    let leak = |s: String| -> &'static str { Box::leak(s.into_boxed_str()) };
+    let mut out: Vec<(&'static str, &'static str, String)> = Vec::new();
+    for block in ["seal", "open"] {
+        for (pos, name) in [("first", "aaa"), ("middle", "nnn"), ("last", "zzz")] {
+            for neigh in ["alone", "among_valid", "among_invalid"] {
+                let mut body = String::from(ENV);
+                body.push_str(&cmd(name, block));
+                body.push_str(&valid_act("pub", name));
+                if neigh != "alone" {
+                    body.push_str(MCMD);
+                    body.push_str(&valid_fn("bfn"));
+                    body.push_str(&valid_fn("yfn"));
+                    body.push_str(&valid_act("cact", "mcmd"));
+                    body.push_str(&valid_act("xact", "mcmd"));
+                }
+                if neigh == "among_invalid" {
+                    body.push_str(&bad_fn("kbad"));
+                }
+                out.push((leak(format!("cmd_{block}_set_twice_{pos}_{neigh}")), "validation:value", doc(&body)));
+            }
+        }
+    }
+    // second shape of the same failure kind: two block expressions binding the same name
+    for block in ["seal", "open"] {
+        let pre = "let z = { let t = 1 : t }\n let y = { let t = 2 : t }\n";
+        let (sp, op) = if block == "seal" { (pre, "") } else { ("", pre) };
+        let body = format!(
+            "{ENV}command nnn {{\n fields {{ a int }}\n seal {{\n {sp} return Envelope {{ payload: payload }}\n }}\n open {{\n {op} return Unit\n }}\n policy {{\n finish {{}}\n }}\n}}\n{}",
+            valid_act("pub", "nnn")
+        );
+        out.push((leak(format!("cmd_{block}_block_exprs_same_name")), "validation:value", doc(&body)));
+    }
+    // both blocks failing, and the valid control of the same shape
+    let mut body = String::from(ENV);
+    body.push_str(&cmd("nnn", "both"));
+    body.push_str(&valid_act("pub", "nnn"));
+    out.push(("cmd_seal_and_open_set_twice", "validation:value", doc(&body)));
+    let mut body = String::from(ENV);
+    body.push_str(&cmd("nnn", "none"));
+    body.push_str(&valid_act("pub", "nnn"));
+    out.push(("cmd_seal_open_valid_control", "valid", doc(&body)));
+    out
+}
+
 /// (name, intended class, text). The class actually observed in-process is what the oracle uses;
 /// the intended class only feeds the vacuity guards.
 fn documents() -> Vec<(&'static str, &'static str, String)> {
     let mut v = base_documents();
     v.extend(multi_definition_documents());
+    v.extend(seal_open_documents());
     v
 }
 
@@ -353,6 +420,12 @@ pub fn run(args: &Args) {
         for no_validate in [false, true] {
             for stub_ffi in [false, true] {
                 for dash_o in [false, true] {
+                    // quick tier: the output option is only crossed with the single-purpose
+                    // documents (it is independent of how many definitions a document has)
+                    let family = d.0.starts_with("multi_") || d.0.starts_with("cmd_");
+                    if dash_o && family && args.tier == mcx::Tier::Quick {
+                        continue;
+                    }
                     rows.push(Row { doc: d.0, no_validate, stub_ffi, dash_o });
                 }
             }
@@ -429,6 +502,9 @@ pub fn run(args: &Args) {
             nontrivial.insert(i);
         }
         rep.count(&format!("rows_{class}"), 1);
+        if row.doc.starts_with("cmd_") {
+            rep.count(&format!("rows_seal_open_{class}"), 1);
+        }
         if row.doc.starts_with("multi_") {
             rep.count(&format!("rows_multi_definition_{class}"), 1);
         }
@@ -485,9 +561,9 @@ pub fn run(args: &Args) {
     rep.set("decision_table", table);
     rep.set("distinct_nontrivial", nontrivial.len() as u64);
     rep.set("documents", docs.iter().map(|d| json!({"name": d.0, "intended": d.1})).collect::<Vec<_>>());
-    rep.set("rule", "decision table: 18 single-purpose documents (parse errors, compile errors, one or more per validator analyzer that can fail on compiler output (function return, value set twice, action publish), valid with and without FFI use) plus 29 multi-definition documents (failing kind × the failing definition sorting first / in the middle / last in label order × valid neighbours of the same type / other types / all types; two failing definitions; all valid) × {∅, --no-validate} × {∅, --stub-ffi} × {default output path, -o}; each row runs the freshly built policy-compiler binary; oracle computed in-process from parse_policy_document / Compiler / validate. non-trivial = distinct rows whose document parses (gets past the CLI's first check)");
+    rep.set("rule", "decision table: 18 single-purpose documents (parse errors, compile errors, one or more per validator analyzer that can fail on compiler output (function return, value set twice, action publish), valid with and without FFI use) plus 29 multi-definition documents (failing kind × the failing definition sorting first / in the middle / last in label order × valid neighbours of the same type / other types / all types; two failing definitions; all valid) plus 22 documents whose only failure (a name set twice on one path) is inside a command's seal or open block (block × command sorting first / middle / last × alone / among valid / among invalid definitions; two block expressions binding the same name; both blocks; valid control) × {∅, --no-validate} × {∅, --stub-ffi} × {default output path, -o} (quick: -o only for the single-purpose documents); each row runs the freshly built policy-compiler binary; oracle computed in-process from parse_policy_document / Compiler / validate. non-trivial = distinct rows whose document parses (gets past the CLI's first check)");
     rep.set("exhaustive", true);
-    for c in ["rows_parse_error", "rows_compile_error", "rows_validation_failure", "rows_valid", "rows_failing_analyzer_function", "rows_failing_analyzer_value", "rows_failing_analyzer_action", "rows_multi_definition_validation_failure", "rows_multi_definition_valid"] {
+    for c in ["rows_parse_error", "rows_compile_error", "rows_validation_failure", "rows_valid", "rows_failing_analyzer_function", "rows_failing_analyzer_value", "rows_failing_analyzer_action", "rows_multi_definition_validation_failure", "rows_multi_definition_valid", "rows_seal_open_validation_failure", "rows_seal_open_valid"] {
         rep.require_nonzero(c);
     }
     rep.assume("with --stub-ffi the tool documents that it writes no module; those rows are judged on the exit status only");
